@@ -1095,19 +1095,10 @@ inline void DnsMessage::validateRdataSecurity(const DnsResourceRecord &rr)
     }
   }
 
-  // Validate other record types that should never contain compression pointers in RDATA
-  if (rr.type == DnsType::TXT || rr.type == DnsType::AAAA)
-  {
-    for (std::size_t i = 0; i < rr.rdata.size() - 1; ++i)
-    {
-      if ((rr.rdata[i] & constants::DNS_COMPRESSION_MASK) == constants::DNS_COMPRESSION_MASK)
-      {
-        throw DnsParseException("Malicious compression pointer detected in " +
-                                std::to_string(static_cast<std::uint16_t>(rr.type)) +
-                                " record RDATA at offset " + std::to_string(i));
-      }
-    }
-  }
+  // TXT and AAAA RDATA carry no domain names: they are never decompressed, so a byte with the two
+  // top bits set is ordinary data there (fe80::/10 and ff00::/8 addresses, UTF-8 text, character
+  // strings of 192 or more bytes) and must not be mistaken for a compression pointer.  (The former
+  // byte scan also indexed an empty RDATA: rdata.size() - 1 wrapped around.)
 
   // Additional validation for other record types that shouldn't have compression pointers
   // in specific parts of their RDATA could be added here in the future
